@@ -292,6 +292,18 @@ func (r *Reader) newBlockReader(nextOff uint64, wantTyp byte) (br *blockReader, 
 			return nil, err
 		}
 	}
+	if blockTyp == blockTypeLog {
+		// blockSize is the inflated size. The zlib stream of
+		// incompressible data is slightly longer than its
+		// input, so it may extend beyond what was read above.
+		need := blockSize + blockSize/1000 + 64
+		if uint32(len(block)) < need && nextOff+uint64(len(block)) < r.size {
+			block, err = r.getBlock(nextOff, need)
+			if err != nil {
+				return nil, err
+			}
+		}
+	}
 
 	var headerOff uint32
 	if nextOff == 0 {
